@@ -102,8 +102,6 @@ location list — as far as the code records them), is the parent of `x`, or is 
 of the non-namespace entry `x` -/
 def Dep (recs : List Rec) (x y : Off) : Prop := DepOwn recs x y ∨ DepChild recs x y
 
-def Distinct (units : List (UnitHdr × List Entry)) : Prop := ((records units).map Rec.off).Nodup
-
 /-- the Spec closure over the abstract relations -/
 def Closure (recs : List Rec) : Off → Prop := Reach (IsEntry recs) (Dep recs) (Required recs)
 
@@ -201,37 +199,6 @@ def allIds (units : List (UnitHdr × List Entry)) : List Off :=
 /-- `entry_ids` of the filtered conversion: every root and the reserved offsets -/
 def keptIds (units : List (UnitHdr × List Entry)) (out : List Off) : List Off :=
   units.map (·.1.rootOff) ++ out
-
-theorem firstErr_none {l : List (Option ConvErr)} : firstErr l = none ↔ ∀ x, x ∈ l → x = none := by
-  induction l with
-  | nil => simp [firstErr]
-  | cons a l ih =>
-    cases a with
-    | none => simp [firstErr, ih]
-    | some e => simp [firstErr]
-
-theorem convUnitRef_none {ids : List Off} {u : UnitHdr} {val : Nat} :
-    convUnitRef ids u val = none ↔ (u.inBounds val = true ∧ u.base + val ∈ ids) := by
-  simp only [convUnitRef]
-  by_cases h : (u.inBounds val && ids.contains (u.base + val)) = true
-  · simp only [h, if_true, true_iff]
-    simpa using h
-  · have h' : (u.inBounds val && ids.contains (u.base + val)) = false := by simpa using h
-    simp only [h', Bool.false_eq_true, if_false]
-    constructor
-    · intro hc; cases hc
-    · intro hc; exact (h (by simpa using hc)).elim
-
-theorem convInfoRef_none {ids : List Off} {val : Off} :
-    convInfoRef ids val = none ↔ val ∈ ids := by
-  simp only [convInfoRef]
-  by_cases h : ids.contains val = true
-  · simp only [h, if_true, true_iff]; simpa using h
-  · have h' : ids.contains val = false := by simpa using h
-    simp only [h', Bool.false_eq_true, if_false]
-    constructor
-    · intro hc; cases hc
-    · intro hc; exact (h (by simpa using hc)).elim
 
 /-- **`no_dangling_partial`** — for a kept entry, an attribute that the unfiltered conversion can
 convert (all its references resolve in the full `entry_ids`) is converted by the filtered
@@ -385,13 +352,6 @@ theorem partition_by_unit (m : Mode) (units : List UnitHdr) (offs : List Off)
   simp [reserve, h]
 
 /-! ## the whole pipeline never panics -/
-
-/-- a section as the raw reader can deliver it: distinct DIE offsets, units in ascending
-non-overlapping order, every DIE inside the bounds of its unit -/
-structure WellFormed (units : List (UnitHdr × List Entry)) : Prop where
-  distinct : Distinct units
-  ascending : (units.map (·.1)).Pairwise (fun u v => u.endOff ≤ v.base)
-  inside : ∀ ue, ue ∈ units → ∀ e, e ∈ ue.2 → ue.1.inBounds e.off = true
 
 /-- **`pipeline_total`** — on every well-formed section, for every required set and in both build
 modes, the filter pass returns a graph (`add_edge`'s `unwrap` and `add_entry`'s `debug_assert!`
